@@ -18,6 +18,7 @@ from .values import Obj, ClassV, FuncV, BoundV, SummaryFn, SymObj, SymSeq, ListT
 ASSUMED = [
     "builtins len/isinstance/getattr/hasattr/any/all/sum/sorted/tuple/list/dict/set/frozenset/enumerate/zip/range/reversed/max/min/str/repr behave as in CPython on concrete arguments (executed natively)",
     "generator expressions are evaluated eagerly (no observable laziness in the verified functions)",
+    "a generator FUNCTION whose values are only iterated over (no send / throw, nothing observable interleaved with its consumer) is run to its end and stands for the list of what it yields; a function whose yields receive values (x = yield v) is not supported and leaves its unit undecided",
     "ast node constructors only store their fields; ast.copy_location / fix_missing_locations only touch position attributes",
     "dict preserves insertion order; set iteration order is unspecified (engine iterates sets in a fixed order and contracts must not depend on it)",
     "integers are mathematical integers (exact for Python int)",
